@@ -5,7 +5,7 @@
 # demo FAILS with it and PASSES without it.  Leaves the worktree clean.
 set -u
 p=$1; v=$2; dest=$3; pat=$4; pkg=$5
-W=/tmp/seed-$p; O=/tmp/seed-$p-out/$v
+PFX=${PFX:-seed}; W=/tmp/$PFX-$p; O=/tmp/$PFX-$p-out/$v
 export GOFLAGS=-mod=mod GOPROXY=off
 cd $W || exit 9
 git checkout -q -- . ; git clean -qfd; git checkout -q --detach $(git -C /repo rev-parse HEAD)
